@@ -163,6 +163,9 @@ def optional_by_none(ctx):
 
 def run(ctx):
     rep = ctx.rep
+    rep.rule("C24.R10", "re-assembly starts from scratch: every attribute System.assemble accumulates into is bound in assemble itself first (set_new_initial_state re-assembles; an accumulator from __init__ doubles the contact / friction data of the re-initialised copy)", 8)
+    from .c14 import assemble_accumulators_reset
+    assemble_accumulators_reset(ctx, "C24.R10")
     rep.rule("C24.R1", "body-fixed joint data is not re-derived from new state + once-only world data", 2)
     rep.rule("C24.R2", "query-updated history state is not reset by re-assembly", 1)
     rep.rule("C24.R3", "set_new_initial_state / deepcopy", 5)
@@ -401,4 +404,13 @@ NEUTRAL = []
 MUTANTS += [
     dict(id="c24-r8-seed", canary=True, what="[seeded by sub-agent] set_new_initial_state: `t0 or self.t0`", file=SYS,
          old="        self.t0 = t0 if t0 is not None else self.t0\n", new="        self.t0 = t0 or self.t0\n", expect="C24.R8"),
+]
+
+MUTANTS += [
+    dict(id="c24-r10-seed", canary=True, what="[seeded by sub-agent] System precomputes a global normal/friction connectivity list in assemble, created in __init__ and never reset", file='cardillo/system.py',
+         edits=[('cardillo/system.py', '        self.contributions = []\n        self.contributions_map = {}\n', '        self.NF_connectivity = []\n\n        self.contributions = []\n        self.contributions_map = {}\n'), ('cardillo/system.py', '                for i_N, i_F, force_law in contr.friction_laws:\n                    if len(i_N) == 0:\n                        self.constant_force_reservoir = True\n', '                for i_N, i_F, force_law in contr.friction_laws:\n                    if len(i_N) == 0:\n                        self.constant_force_reservoir = True\n                    self.NF_connectivity.append((contr.la_NDOF[i_N], contr.la_FDOF[i_F], force_law))\n')], expect="C24.R10"),
+]
+
+NEUTRAL += [
+    dict(id="c24-n-r10", canary=True, what="System precomputes a global normal/friction connectivity list in assemble and resets it there", file='cardillo/system.py', edits=[('cardillo/system.py', '        e_F = []\n', '        e_F = []\n        self.NF_connectivity = []\n'), ('cardillo/system.py', '                for i_N, i_F, force_law in contr.friction_laws:\n                    if len(i_N) == 0:\n                        self.constant_force_reservoir = True\n', '                for i_N, i_F, force_law in contr.friction_laws:\n                    if len(i_N) == 0:\n                        self.constant_force_reservoir = True\n                    self.NF_connectivity.append((contr.la_NDOF[i_N], contr.la_FDOF[i_F], force_law))\n')]),
 ]
